@@ -14,13 +14,24 @@
 //   - between two operations of its program (position "idle"),
 //   - before acquiring a scheduled mutex, unless it has not executed any lock
 //     operation since it was granted the processor (positions "lock"/"rlock"),
-//   - inside Cond.Wait after releasing the mutex (position "parked", and
-//     "woken" once a Broadcast/Signal made it runnable again).
+//   - on entry to Cond.Wait, still holding the mutex and BEFORE it is
+//     registered as a waiter (position "waitentry"): sync.Cond permits
+//     Broadcast without holding c.L, and such a Broadcast (like a context
+//     cancellation, which never takes a lock) can land between the caller's
+//     last check and the registration, where it is lost,
+//   - inside Cond.Wait after registering and releasing the mutex (position
+//     "parked", and "woken" once a Broadcast/Signal made it runnable again),
+//   - with Sched.Inner set, additionally before every acquisition of a NoYield
+//     mutex (position "inner"): these are the points inside a critical section
+//     at which lock-free events of other threads can be interleaved.
 //
-// Hence one Step executes one critical section: from a lock acquisition to the
-// matching release or to Cond.Wait. These are the actions of OutStream.tla.
-// A mutex with NoYield set (the harness sets it on cacheMu) never parks its
-// caller; it is only acquired inside critical sections of a scheduled mutex.
+// Hence one Step executes one critical section (or, at "waitentry"/"inner", a
+// piece of it): these are the actions of OutStream.tla. A mutex with NoYield
+// set (the harness sets it on cacheMu) is only acquired inside critical
+// sections of a scheduled mutex.
+// Whether a Broadcast/Signal is issued with c.L held by the caller is not
+// assumed but observed: Thread.UnlockedBroadcasts counts the ones issued
+// without it.
 // Lock state is tracked for every mutex; a thread whose mutex is not
 // available is reported as not enabled and is never granted the processor.
 //
@@ -42,6 +53,8 @@ type Locker interface {
 type RWMutex struct {
 	w bool
 	r int
+	// owner is the managed thread holding the write lock (nil: the controller).
+	owner *Thread
 	// NoYield makes acquisitions of this mutex invisible to the scheduler.
 	NoYield bool
 }
@@ -56,6 +69,14 @@ func (m *Mutex) Unlock() { m.rw.Unlock() }
 
 // SetNoYield marks the mutex as invisible to the scheduler.
 func (m *Mutex) SetNoYield(v bool) { m.rw.NoYield = v }
+
+// WriteOwner returns the managed thread holding the write lock, if any.
+func (m *RWMutex) WriteOwner() *Thread {
+	if m.w {
+		return m.owner
+	}
+	return nil
+}
 
 func (m *RWMutex) canLock() bool  { return !m.w && m.r == 0 }
 func (m *RWMutex) canRLock() bool { return !m.w }
@@ -73,6 +94,7 @@ func (m *RWMutex) Unlock() {
 		panic("vsync: Unlock of unlocked RWMutex")
 	}
 	m.w = false
+	m.owner = nil
 	ran()
 }
 
@@ -95,8 +117,9 @@ type Cond struct {
 
 func NewCond(l Locker) *Cond { return &Cond{L: l} }
 
-// Wait atomically releases c.L and parks the calling thread; after a
-// Broadcast/Signal the thread is runnable again and re-acquires c.L when the
+// Wait parks the calling thread on entry (still holding c.L, not yet a
+// waiter), then registers it as a waiter, releases c.L and parks it again;
+// after a Broadcast/Signal the thread is runnable and re-acquires c.L when the
 // controller grants it the processor.
 func (c *Cond) Wait() {
 	s := cur
@@ -104,19 +127,42 @@ func (c *Cond) Wait() {
 		panic("vsync: Cond.Wait outside a managed thread")
 	}
 	t := s.running
-	c.L.Unlock()
+	s.park(t, PosWaitEntry)
 	t.woken = false
 	t.waitOn = c
 	c.waiters = append(c.waiters, t)
+	c.L.Unlock()
 	s.park(t, PosParked)
 	// granted again: only happens when woken and the lock is available
 	t.waitOn = nil
 	t.ranOps = false
-	lockDirect(c.L)
+	lockDirect(c.L, t)
 	t.ranOps = true
 }
 
+// heldByCaller reports whether c.L is write-locked by the calling thread.
+func (c *Cond) heldByCaller() bool {
+	var t *Thread
+	if cur != nil {
+		t = cur.running
+	}
+	switch m := c.L.(type) {
+	case *RWMutex:
+		return m.w && m.owner == t
+	case *Mutex:
+		return m.rw.w && m.rw.owner == t
+	}
+	return true
+}
+
+func (c *Cond) noteBroadcast() {
+	if cur != nil && cur.running != nil && !c.heldByCaller() {
+		cur.running.UnlockedBroadcasts++
+	}
+}
+
 func (c *Cond) Broadcast() {
+	c.noteBroadcast()
 	for _, t := range c.waiters {
 		t.woken = true
 		t.pos = PosWoken
@@ -126,6 +172,7 @@ func (c *Cond) Broadcast() {
 }
 
 func (c *Cond) Signal() {
+	c.noteBroadcast()
 	if len(c.waiters) > 0 {
 		t := c.waiters[0]
 		c.waiters = c.waiters[1:]
@@ -139,13 +186,15 @@ func (c *Cond) Signal() {
 
 // Positions of a thread as seen by the controller.
 const (
-	PosIdle   = "idle"   // between two operations (or before the first)
-	PosLock   = "lock"   // about to acquire a write lock
-	PosRLock  = "rlock"  // about to acquire a read lock
-	PosParked = "parked" // in Cond.Wait, not woken
-	PosWoken  = "woken"  // in Cond.Wait, woken, about to re-acquire
-	PosDone   = "done"   // program finished (or aborted / panicked)
-	PosRun    = "running"
+	PosIdle      = "idle"      // between two operations (or before the first)
+	PosLock      = "lock"      // about to acquire a write lock
+	PosRLock     = "rlock"     // about to acquire a read lock
+	PosWaitEntry = "waitentry" // entered Cond.Wait, holds the mutex, not yet a waiter
+	PosInner     = "inner"     // inside a critical section, before acquiring a NoYield mutex
+	PosParked    = "parked"    // in Cond.Wait, not woken
+	PosWoken     = "woken"     // in Cond.Wait, woken, about to re-acquire
+	PosDone      = "done"      // program finished (or aborted / panicked)
+	PosRun       = "running"
 )
 
 type abortT struct{}
@@ -154,23 +203,27 @@ type abortT struct{}
 var Aborted = abortT{}
 
 type Thread struct {
-	ID      int
-	s       *Sched
-	resume  chan struct{}
-	pos     string
-	want    *RWMutex // mutex it is about to acquire (PosLock / PosRLock)
-	wantW   bool
-	waitOn  *Cond
-	woken   bool
-	ranOps  bool // executed a lock operation since it was granted the processor
-	abort   bool
-	started bool
+	ID     int
+	s      *Sched
+	resume chan struct{}
+	pos    string
+	want   *RWMutex // mutex it is about to acquire (PosLock / PosRLock)
+	wantW  bool
+	waitOn *Cond
+	woken  bool
+	ranOps bool // executed a lock operation since it was granted the processor
+	abort  bool
+	// UnlockedBroadcasts counts Broadcast/Signal calls of this thread issued
+	// without holding the condition's mutex.
+	UnlockedBroadcasts int
 }
 
 type Sched struct {
 	threads []*Thread
 	running *Thread
 	yielded chan struct{}
+	// Inner adds scheduling points before acquisitions of NoYield mutexes.
+	Inner bool
 }
 
 var cur *Sched
@@ -233,7 +286,7 @@ func (t *Thread) Pos() string { return t.pos }
 // Enabled reports whether granting the processor to t lets it make a step.
 func (t *Thread) Enabled() bool {
 	switch t.pos {
-	case PosIdle:
+	case PosIdle, PosWaitEntry, PosInner:
 		return true
 	case PosLock:
 		return t.want.canLock()
@@ -282,18 +335,18 @@ func ran() {
 	}
 }
 
-func lockDirect(l Locker) {
+func lockDirect(l Locker, t *Thread) {
 	switch m := l.(type) {
 	case *RWMutex:
 		if !m.canLock() {
 			panic("vsync: woken thread granted although the mutex is held")
 		}
-		m.w = true
+		m.w, m.owner = true, t
 	case *Mutex:
 		if !m.rw.canLock() {
 			panic("vsync: woken thread granted although the mutex is held")
 		}
-		m.rw.w = true
+		m.rw.w, m.rw.owner = true, t
 	default:
 		l.Lock()
 	}
@@ -311,6 +364,9 @@ func acquire(m *RWMutex, write bool) {
 		}
 		return m.canRLock()
 	}
+	if t != nil && m.NoYield && s.Inner {
+		s.park(t, PosInner)
+	}
 	if t != nil && !m.NoYield {
 		for t.ranOps || !avail() {
 			t.want, t.wantW = m, write
@@ -327,7 +383,7 @@ func acquire(m *RWMutex, write bool) {
 		panic("vsync: mutex not available outside a managed thread (or NoYield mutex contended)")
 	}
 	if write {
-		m.w = true
+		m.w, m.owner = true, t
 	} else {
 		m.r++
 	}
